@@ -44,6 +44,9 @@ def _gen0(rng, tier):
     for _ in range(G.budget(40) if tier == 'quick' else 1500):     # narrow integer types with runs longer than 127 / 255 frames
         trajs, dtypes, tag = G.narrow_set(rng, 'long-int8')
         yield {'trajs': trajs, 'lag': rng.choice([2, 2, 3, 5, 9]), 'iter': rng.random() < 0.5, 'form': 'loa', 'alpha': tag, 'dtypes': dtypes}
+    for _ in range(G.budget(4) if tier == 'quick' else 100):       # arrays of different widths / signedness with > 128 states
+        trajs, dtypes, tag = G.narrow_set(rng, rng.choice(['many-mixed', 'many-unsigned']))
+        yield {'trajs': trajs, 'lag': rng.choice([1, 2]), 'iter': rng.random() < 0.5, 'form': 'loa', 'alpha': tag, 'dtypes': dtypes}
     for _ in range(G.budget(10) if tier == 'quick' else 150):      # unusual sizes (many trajectories / frames / states, empty members)
         trajs, tag = G.size_classes(rng, lag=3, sticky=0.9)
         yield {'trajs': trajs, 'lag': rng.choice([2, 3, 5]), 'iter': rng.random() < 0.5, 'form': rng.choice(['loa', 'obj']), 'alpha': 'size-' + tag}
